@@ -37,6 +37,9 @@ func profileByName(name string) Profile {
 		p.PFault, p.InvokeFaults, p.PCallback = 0.3, true, 0.4
 		p.PGap, p.PBackEdge, p.PInvalid = 0.03, 0.03, 0.02
 		p.Invokes = [2]int{4, 10}
+	case "reentrant":
+		p.PReenter, p.PDecorate, p.PFault, p.PInvalid, p.PGap = 0.4, 0.5, 0.1, 0.02, 0.05
+		p.MaxScopes = 3
 	case "faultbase":
 		p.PGap, p.PBackEdge, p.PInvalid, p.PDup, p.PDecorate, p.PCallback = 0.02, 0.02, 0, 0.02, 0.35, 0.3
 		p.MinFns, p.MaxFns = 2, 8
@@ -101,9 +104,9 @@ func jobsFor(prop, tier string) []JobSpec {
 	}
 	switch prop {
 	case "C01":
-		return []JobSpec{{"hist:general", n(30000, 1500000)}, {"hist:decor", n(10000, 500000)}, {"hist:scopes", n(10000, 500000)}}
+		return []JobSpec{{"hist:general", n(25000, 1200000)}, {"hist:decor", n(10000, 500000)}, {"hist:scopes", n(10000, 500000)}, {"hist:faultsdecor", n(10000, 500000)}}
 	case "C02":
-		return []JobSpec{{"hist:general", n(20000, 1000000)}, {"hist:decor", n(15000, 700000)}, {"hist:faults", n(15000, 700000)}}
+		return []JobSpec{{"hist:general", n(20000, 1000000)}, {"hist:decor", n(15000, 700000)}, {"hist:faults", n(15000, 700000)}, {"hist:reentrant", n(15000, 700000)}}
 	case "C03":
 		return []JobSpec{{"hist:general", n(25000, 1200000)}, {"hist:soft", n(10000, 500000)}, {"hist:scopes", n(15000, 700000)}}
 	case "C04":
